@@ -38,6 +38,10 @@ CHAINS = {
 }
 
 
+# how the sink accepts bytes: everything, or at most k bytes per write call (short writes are legal for io::Write)
+SINK_CHUNKS = [[], [], [], [1], [3], [5], [7], [1, 3, 5, 7], [4096, 1]]
+
+
 def xz_variant(over=None):
     c = {k: ASBUILT[k] for k in XZV}
     if over:
@@ -150,7 +154,7 @@ def xz_write_scn(sid, st, rnd, reads=None, unit=UNIT):
         opt["limit"] = st["limit"] * unit
     return {"id": sid, "fam": "xz_write", "seed": rnd.getrandbits(32), "opt": opt, "class": data_class_for(chain, rnd),
             "calls": calls, "reads": reads or rnd.choice([[4096], [1], [7, 4096, 3], [65536], [1000]]),
-            "abstract": st}
+            "sink_chunks": rnd.choice(SINK_CHUNKS), "abstract": st}
 
 
 def xz_events(s, r):
@@ -273,6 +277,9 @@ def judge_xz_write(j, s, r, predicted=None, source="tlc-scn"):
     if not (rt["ok"] and rt["cmp"]["equal"]):
         j.violation("C02", f"XZ file written by the crate is not decoded back by XZReader: {rt['err'] or 'wrong bytes'} (got {rt['cmp']['len']} of {r['input_len']} bytes)",
                     dict(base, outcome="roundtrip"), rep)
+    if r.get("sink_equal") is False:
+        j.violation("C02", f"XZWriter output into a sink that accepts at most {s.get('sink_chunks')} bytes per write() differs from the output into a Vec",
+                    dict(base, outcome="short_write_sink"), rep)
     rf = r["ref"]
     if not (rf["ok"] and rf["equal"]):
         j.violation("C03", f"liblzma does not accept / reproduce the .xz file written by the crate: {rf['err'] or 'wrong bytes'}",
@@ -368,6 +375,11 @@ def family_xz(ctx, j, quick, rnd, pool, cap=None, nrand=None):
     for i in range(nrand):
         scns.append(random_xz_scn(f"xz-rand-{i}", rnd, quick))
         meta.append(("random", None, None))
+    # BCJ pre-filters with a non-zero start offset at the filter's own alignment, one write (ours -> own reader / liblzma)
+    for ci, chain in enumerate(REF_CHAINS_OFFSET):
+        scns.append({"id": f"xz-bcjoff-{ci}", "fam": "xz_write", "seed": ci, "opt": {"preset": 0, "dict": 65536, "check": "crc32", "filters": chain},
+                     "class": rnd.choice(["mixed", "random", "text"]), "calls": [{"op": "write", "n": 20000}, {"op": "finish"}], "reads": [4096]})
+        meta.append(("directed", None, None))
     for i, d in enumerate([5000, 12345, 70000] if quick else [4097, 5000, 6145, 12345, 70000, 100000, 1500000]):
         scns.append({"id": f"xz-far-{d}", "fam": "xz_write", "seed": d, "opt": {"preset": rnd.choice([0, 6]), "dict": d, "check": "crc32", "filters": []},
                      "period": d - 3, "calls": [{"op": "write", "n": 3 * d}, {"op": "finish"}], "reads": [4096]})
@@ -418,7 +430,7 @@ def random_xz_scn(sid, rnd, quick):
     # D1 (dict < 64 KiB + incompressible data after a window move) belongs to another group: keep small dictionaries on compressible data
     cls = rnd.choice(["text", "seq", "periodic", "lowent", "zeros"] + (["random", "mixed", "repeat_far"] if dict_size >= 65536 else []))
     s = {"id": sid, "fam": "xz_write", "seed": rnd.getrandbits(32), "opt": opt, "class": cls, "calls": calls,
-         "reads": rnd.choice([[4096], [1], [7, 4096, 3], [65536], [1000]])}
+         "reads": rnd.choice([[4096], [1], [7, 4096, 3], [65536], [1000]]), "sink_chunks": rnd.choice(SINK_CHUNKS)}
     if total > dict_size and not chain and rnd.random() < 0.6:
         # matches at a distance just below the dictionary size: the declared dictionary must cover the one the encoder used
         s["period"] = dict_size - rnd.randint(1, 16)
@@ -581,8 +593,12 @@ def lz_write_scn(sid, a, rnd):
     opt = {"preset": rnd.choice([0, 1, 4, 6]), "dict": a["dict"]}
     if a["limit"]:
         opt["limit"] = a["limit"]
+    # lc / lp / pb of LZIPOptions::lzma_options are not LZIP options (the format fixes 3 / 0 / 2): whatever the caller sets must be
+    # ignored (output identical to the default vector, decodable)
+    if rnd.random() < 0.5:
+        opt["lc"], opt["lp"], opt["pb"] = rnd.choice([(0, 0, 0), (3, 2, 2), (0, 4, 4), (4, 0, 0), (1, 1, 3), (3, 0, 0), (2, 2, 2)])
     s = {"id": sid, "fam": "lz_write", "seed": rnd.getrandbits(32), "opt": opt, "calls": calls,
-         "reads": rnd.choice([[4096], [1], [7, 4096, 3], [65536]]), "abstract": a}
+         "reads": rnd.choice([[4096], [1], [7, 4096, 3], [65536]]), "sink_chunks": rnd.choice(SINK_CHUNKS), "abstract": a}
     if a.get("far"):
         s["period"] = a["dict"] - rnd.randint(1, 16)     # matches at a distance just below the dictionary size
     else:
@@ -615,6 +631,12 @@ def judge_lz_write(j, s, r, predicted=None, source="tlc-scn"):
         j.violation("C02", f"LZIP file written by the crate (dict_size {opt.get('dict')}, header declares "
                            f"{[x.get('dict') for x in r['recs'] if x['k'] == 'Hdr'][:1]}) is not decoded back by LZIPReader: "
                            f"{rt['err'] or 'wrong bytes'} (got {rt['cmp']['len']} of {r['input_len']} bytes)", dict(base, outcome="roundtrip"), rep)
+    if r.get("sink_equal") is False:
+        j.violation("C02", f"LZIPWriter output into a sink that accepts at most {s.get('sink_chunks')} bytes per write() differs from the output into a Vec",
+                    dict(base, outcome="short_write_sink"), rep)
+    if r.get("lclppb_ignored") is False:
+        j.violation("C02", f"LZIPWriter does not override lc/lp/pb = {opt.get('lc')}/{opt.get('lp')}/{opt.get('pb')} of lzma_options with the format's 3/0/2: "
+                           f"the member differs from the one written with default options", dict(base, outcome="lclppb_not_overridden"), rep)
     if not (rf["ok"] and rf["equal"]):
         j.violation("C03", f"liblzma does not accept / reproduce the .lz file written by the crate (dict_size {opt.get('dict')}): {rf['err'] or 'wrong bytes'}",
                     dict(base, outcome="ref_reject"), rep)
@@ -761,8 +783,10 @@ def random_lz_scn(sid, rnd, quick):
     opt = {"preset": rnd.choice([0, 1, 3, 6]), "dict": d}
     if rnd.random() < 0.6:
         opt["limit"] = rnd.choice([1, 4096, 5000, 10000, 65536])
+    if rnd.random() < 0.5:
+        opt["lc"], opt["lp"], opt["pb"] = rnd.choice([(0, 0, 0), (3, 2, 2), (0, 4, 4), (4, 0, 0), (1, 1, 3)])
     s = {"id": sid, "fam": "lz_write", "seed": rnd.getrandbits(32), "opt": opt, "calls": calls,
-         "reads": rnd.choice([[4096], [1], [7, 4096, 3], [65536]])}
+         "reads": rnd.choice([[4096], [1], [7, 4096, 3], [65536]]), "sink_chunks": rnd.choice(SINK_CHUNKS)}
     if rnd.random() < 0.5 and total > 0:
         s["period"] = max(1, min(max(d, 4096), total) - rnd.randint(1, 16))
     else:
@@ -972,7 +996,7 @@ def l2_write_scn(sid, a, rnd):
     if any_si or rnd.random() < 0.5:
         opt["limit"] = L2_DICT
     return {"id": sid, "fam": "lzma2_write", "seed": rnd.getrandbits(32), "opt": opt, "calls": calls,
-            "reads": rnd.choice([[4096], [1], [7, 4096, 3], [65536]]), "abstract": a}
+            "reads": rnd.choice([[4096], [1], [7, 4096, 3], [65536]]), "sink_chunks": rnd.choice(SINK_CHUNKS), "abstract": a}
 
 
 def l2_sig(s):
@@ -1153,7 +1177,7 @@ def la_write_scn(sid, a, rnd):
     if not opt["header"] and not opt["marker"] and a["exp"] < 0:
         pass        # raw stream without marker and without size: decodable only because the harness passes the size to the reader
     return {"id": sid, "fam": "lzma_write", "seed": rnd.getrandbits(32), "opt": opt, "class": rnd.choice(["text", "seq", "random", "mixed", "zeros"]),
-            "calls": calls, "reads": rnd.choice([[4096], [1], [7, 4096, 3], [65536]]), "abstract": a}
+            "calls": calls, "reads": rnd.choice([[4096], [1], [7, 4096, 3], [65536]]), "sink_chunks": rnd.choice(SINK_CHUNKS), "abstract": a}
 
 
 def la_sig(s):
@@ -1745,6 +1769,10 @@ def ref_cfgs(rnd, quick):
     return out
 
 
+# BCJ start offsets: non-zero, at each filter's own alignment (x86 1; ARM-Thumb, RISC-V 2; ARM, ARM64, PowerPC, SPARC 4; IA-64 16)
+BCJ_OFFSETS = {"x86": [1, 3, 4097], "armthumb": [2, 6, 0x1002], "riscv": [2, 6, 0x1002], "arm": [4, 12, 0x1004], "arm64": [4, 12, 0x1004],
+               "powerpc": [4, 0x1004], "sparc": [4, 0x1004], "ia64": [16, 48, 0x1010]}
+REF_CHAINS_OFFSET = [[{"t": t, "p": p}] for t, ps in BCJ_OFFSETS.items() for p in ps]
 REF_CHAINS = [[], [{"t": "delta", "p": 1}], [{"t": "delta", "p": 256}], [{"t": "x86", "p": 0}], [{"t": "powerpc", "p": 0}], [{"t": "ia64", "p": 0}],
               [{"t": "arm", "p": 0}], [{"t": "armthumb", "p": 0}], [{"t": "sparc", "p": 0}], [{"t": "arm64", "p": 0}], [{"t": "riscv", "p": 0}],
               [{"t": "x86", "p": 4096}], [{"t": "arm64", "p": 65536}], [{"t": "delta", "p": 4}, {"t": "x86", "p": 0}],
@@ -1804,6 +1832,11 @@ def family_ref_to_ours(ctx, j, quick, rnd, pool):
         scns.append({"id": f"ref-big-{fmt}", "fam": "read", "fmt": fmt, "multi": False, "seed": 5,
                      "parts": [{"k": fmt, "src": "ref", "opt": dict({"preset": 1, "dict": 1 << 20}, **({"check": "crc64"} if fmt == "xz" else {})),
                                 "n": 5 << 20, "class": "zeros", "seed": 1}], "reads": [65536], "want_recs": fmt == "xz"})
+    for ci, chain in enumerate(REF_CHAINS_OFFSET):
+        for src in (("ref",) if quick else ("ref", "forge")):
+            scns.append({"id": f"ref-bcjoff-{ci}-{src}", "fam": "read", "fmt": "xz", "multi": False, "seed": ci, "reads": [4096], "want_recs": True,
+                         "parts": [{"k": "xz", "src": src, "opt": {"preset": 0, "dict": 1 << 16, "check": "crc32", "filters": chain},
+                                    "n": 20000, "class": rnd.choice(["mixed", "random", "text"]), "seed": ci, "hc": False, "hu": src == "forge"}]})
     # mixed compressibility with LZMA_SYNC_FLUSH at the segment boundaries: the reference then emits every kind of chunk header with
     # zero high size bits - 0xE0 (first chunk), 0x01 / 0x02 (uncompressed), 0xC0 (new properties after an uncompressed first chunk),
     # 0xA0 (state reset after an uncompressed chunk), 0x80 (plain) - the coverage is measured with the strict chunk walker below
@@ -1957,7 +1990,7 @@ def many_scn(sid, classes, shape, rnd, nblocks, src="ours"):
     calls = [{"op": "write", "n": n} for n in writes if n > 0] + [{"op": "finish"}]
     return {"id": sid, "fam": "xz_write", "seed": rnd.getrandbits(32), "class": cls, "calls": calls, "reads": [65536],
             "opt": {"preset": 0, "dict": bsz, "check": rnd.choice(["none", "crc32", "crc64"]), "limit": bsz, "filters": []},
-            "want_blocks": nblocks, "vli": [clen, ulen, dlen]}
+            "sink_chunks": rnd.choice([[], [3], [7], [1, 3, 5, 7]]), "want_blocks": nblocks, "vli": [clen, ulen, dlen]}
 
 
 def vli_len(v):
